@@ -539,9 +539,8 @@ fn judge_image<K: TestKey>(
     if !se.staging.is_empty() {
         rep.count("images_with_staging_leftovers", 1);
     }
-    if !out.is_empty() {
-        return out;
-    }
+    // keep going even if another property's oracle already fired: clean-up and continuation are
+    // judged on their own (they need a model to compare with, though)
     let Some(matched) = matched else { return out };
 
     // --- clean-up restores exactness, then the store keeps working
